@@ -62,6 +62,12 @@ def scenarios(seed, n_random):
                                       S(1350, "unblock-a2i")], 4800, clean=True, buf=512)
     add("backpressure-bigmsgs", 10, [S(300, "block-i2a"), S(305, "block-a2i"), S(350, "ini-send-big"), S(352, "acc-send-big"), S(400, "ini-burst"),
                                      S(410, "acc-burst"), S(500, "ini-send-big"), S(1300, "unblock-i2a"), S(1350, "unblock-a2i")], 4800, clean=True)
+    # 30 TestRequests from each side while the other direction is blocked: the echoes wait in full queues and leave in order
+    add("backpressure-testreq", 10, [S(300, "block-a2i"), S(350, "ini-testreq-burst"), S(1300, "unblock-a2i")], 3600, buf=4)
+    add("backpressure-testreq-i", 10, [S(300, "block-i2a"), S(350, "acc-testreq-burst"), S(1300, "unblock-i2a")], 3600, buf=4)
+    # (only ONE direction is blocked while the other side asks: with both blocked and both asking, each side's reply waits for the
+    #  lock its own blocked sender holds - the two sessions wait for each other until a write deadline ends a connection; that is
+    #  how the send path is built and no property speaks of it)
     add("burst-free", 1, [S(300, "ini-burst"), S(300, "acc-burst")], 2600, clean=True)
     add("burst-tcp", 1, [S(300, "ini-burst"), S(300, "acc-burst-reuse")], 2600, clean=True)
     # retransmission on request in the middle of traffic: what follows is numbered on from where the first transmissions stopped
